@@ -505,3 +505,460 @@ Section Phase2.
       apply in_map_iff in He as (j & <- & Hj). cbn. now apply INC.
   Qed.
 End Phase2.
+(* ------------------------------------------------------------------------------------------ *)
+(* 5. the pure traces against the documented selections                                        *)
+(* ------------------------------------------------------------------------------------------ *)
+Section Traces.
+  Context {T : Type} {N : Num T}.
+  Notation crule := (crule T). Notation cstate := (cstate T). Notation event := (event T).
+  Notation rstatic := (rstatic T).
+  Notation entry := (nat * T)%type.
+
+  (* (position, degree) of the loaded rules among xs *)
+  Fixpoint ld (xs : list (nat * rstatic)) : list entry :=
+    match xs with
+    | [] => []
+    | (i, x) :: xs' => if rs_loaded x then (i, rs_value x) :: ld xs' else ld xs'
+    end.
+  Lemma ld_app xs ys : ld (xs ++ ys) = ld xs ++ ld ys.
+  Proof. induction xs as [|[i x] xs IH]; cbn; auto. destruct (rs_loaded x); cbn; now rewrite IH. Qed.
+  Lemma ld_rev xs : ld (rev xs) = rev (ld xs).
+  Proof.
+    induction xs as [|[i x] xs IH]; cbn; auto. rewrite ld_app, IH. cbn.
+    destruct (rs_loaded x); cbn; auto. now rewrite app_nil_r.
+  Qed.
+  Lemma ld_in i v xs : In (i, v) (ld xs) -> exists x, In (i, x) xs /\ rs_loaded x = true /\ rs_value x = v.
+  Proof.
+    induction xs as [|[k x] xs IH]; cbn; [tauto|]. destruct (rs_loaded x) eqn:L.
+    - intros [E|H]; [inversion E; subst; eauto | destruct (IH H) as (y & ? & ? & ?); eauto].
+    - intros H; destruct (IH H) as (y & ? & ? & ?); eauto.
+  Qed.
+  Lemma ld_fst_incl xs : incl (map fst (ld xs)) (map fst xs).
+  Proof.
+    induction xs as [|[k x] xs IH]; cbn; [apply incl_refl|]. destruct (rs_loaded x); cbn.
+    - intros j [<-|H]; [now left | right; now apply IH].
+    - intros j H; right; now apply IH.
+  Qed.
+  Lemma ld_fst_nodup xs : NoDup (map fst xs) -> NoDup (map fst (ld xs)).
+  Proof.
+    induction xs as [|[k x] xs IH]; cbn; auto. intros ND; inversion ND; subst.
+    destruct (rs_loaded x); cbn; auto. constructor; auto. intros H. now apply ld_fst_incl in H.
+  Qed.
+  (* ... and of a whole block *)
+  Lemma ld_block (b : list crule) k :
+    ld (combine (seq k (length b)) (map (@cr_static T) b)) =
+    loaded_from (fun r => rs_loaded (cr_static r)) (fun r => rs_value (cr_static r)) k b.
+  Proof.
+    revert k; induction b as [|r b IH]; intros k; cbn; auto. now rewrite IH.
+  Qed.
+
+  Lemma triggers_of_app (e1 e2 : list event) : triggers_of (e1 ++ e2) = triggers_of e1 ++ triggers_of e2.
+  Proof. induction e1 as [|e e1 IH]; cbn; auto. destruct e; cbn; now rewrite ?IH. Qed.
+  Lemma triggers_of_map (h : nat -> T) tl :
+    triggers_of (map (fun j => EvTrigger j (h j)) tl) = map (fun j => (j, h j)) tl.
+  Proof. induction tl as [|j tl IH]; cbn; now rewrite ?IH. Qed.
+  Lemma evals_of_app (e1 e2 : list event) : evals_of (e1 ++ e2) = evals_of e1 ++ evals_of e2.
+  Proof. induction e1 as [|e e1 IH]; cbn; auto. destruct e; cbn; now rewrite ?IH. Qed.
+  Lemma deactivations_of_app (e1 e2 : list event) :
+    deactivations_of (e1 ++ e2) = deactivations_of e1 ++ deactivations_of e2.
+  Proof. induction e1 as [|e e1 IH]; cbn; auto. destruct e; cbn; now rewrite ?IH. Qed.
+  Lemma evals_of_map (h : nat -> T) tl : evals_of (map (fun j => EvTrigger j (h j)) tl) = [].
+  Proof. induction tl; cbn; auto. Qed.
+  Lemma deactivations_of_map (h : nat -> T) tl : deactivations_of (map (fun j => EvTrigger j (h j)) tl) = [].
+  Proof. induction tl; cbn; auto. Qed.
+
+  (* every first loop deactivates every rule and evaluates exactly the loaded ones, in iteration order *)
+  Lemma gtrace_deactivations A (f : A -> nat -> T -> A * bool) xs : forall a,
+    deactivations_of (gtrace f xs a) = map fst xs.
+  Proof.
+    induction xs as [|[i x] xs IH]; intros a; cbn; auto. f_equal.
+    destruct (rs_loaded x); cbn; auto. destruct (snd (f a i (rs_value x))); cbn; auto.
+  Qed.
+  Lemma gtrace_evals A (f : A -> nat -> T -> A * bool) xs : forall a,
+    evals_of (gtrace f xs a) = map fst (ld xs).
+  Proof.
+    induction xs as [|[i x] xs IH]; intros a; cbn; auto.
+    destruct (rs_loaded x); cbn; auto. f_equal. destruct (snd (f a i (rs_value x))); cbn; auto.
+  Qed.
+
+  (* ---- General *)
+  Lemma general_triggers xs : triggers_of (gtrace f_general xs tt) = select AGeneral (ld xs).
+  Proof. induction xs as [|[i x] xs IH]; cbn; auto. destruct (rs_loaded x); cbn; now rewrite ?IH. Qed.
+
+  (* ---- First / Last: with `a` rules already triggered, n - a more may be *)
+  Lemma first_triggers n t xs : forall a,
+    triggers_of (gtrace (f_first n t) xs a) = firstn (Z.to_nat (n - a)) (filter (reaches t) (ld xs)).
+  Proof.
+    induction xs as [|[i x] xs IH]; intros a; cbn [gtrace ld triggers_of].
+    - now rewrite firstn_nil.
+    - destruct (rs_loaded x); [|apply IH]. cbn [triggers_of filter].
+      change (reaches t (i, rs_value x)) with (gtb (rs_value x) zero && geb (rs_value x) t).
+      destruct (Z.ltb_spec a n) as [LT|GE].
+      + destruct (gtb (rs_value x) zero && geb (rs_value x) t) eqn:R.
+        * assert (F : f_first n t a i (rs_value x) = ((a + 1)%Z, true)).
+          { unfold f_first, first_cond. now rewrite (proj2 (Z.ltb_lt _ _) LT), R. }
+          rewrite F. cbn [fst snd triggers_of]. rewrite IH.
+          replace (Z.to_nat (n - a)) with (Datatypes.S (Z.to_nat (n - (a + 1)))) by lia.
+          reflexivity.
+        * assert (F : f_first n t a i (rs_value x) = (a, false)).
+          { unfold f_first, first_cond. now rewrite (proj2 (Z.ltb_lt _ _) LT), R. }
+          rewrite F. cbn [fst snd]. apply IH.
+      + assert (F : f_first n t a i (rs_value x) = (a, false)).
+        { unfold f_first, first_cond. now rewrite (proj2 (Z.ltb_ge _ _) GE). }
+        rewrite F. cbn [fst snd]. rewrite IH. replace (Z.to_nat (n - a)) with O by lia. reflexivity.
+  Qed.
+  Lemma first_selects_pure n t xs :
+    triggers_of (gtrace (f_first n t) xs 0%Z) = select (AFirst n t) (ld xs).
+  Proof. rewrite first_triggers. cbn. unfold take. now rewrite Z.sub_0_r. Qed.
+  Lemma last_selects_pure n t xs :
+    triggers_of (gtrace (f_first n t) (rev xs) 0%Z) = select (ALast n t) (ld xs).
+  Proof. rewrite first_triggers, ld_rev. cbn. unfold take. now rewrite Z.sub_0_r. Qed.
+
+  (* ---- Threshold *)
+  Lemma cmp_apply_holds c (a t : T) : cmp_apply c a t = cmp_holds c a t.
+  Proof. destruct c; reflexivity. Qed.
+  Lemma threshold_triggers c t xs :
+    triggers_of (gtrace (f_threshold c t) xs tt) = select (AThreshold c t) (ld xs).
+  Proof.
+    induction xs as [|[i x] xs IH]; cbn [gtrace ld triggers_of]; auto.
+    destruct (rs_loaded x); [|apply IH]. cbn [triggers_of select filter f_threshold fst snd].
+    rewrite cmp_apply_holds. destruct (cmp_holds c (rs_value x) t); cbn [triggers_of]; now rewrite IH.
+  Qed.
+
+  (* ---- the collecting loops trigger nothing and accumulate the positive loaded degrees *)
+  Lemma heap_trace_no_trigger key xs : forall h, triggers_of (gtrace (f_heap key) xs h) = [].
+  Proof.
+    induction xs as [|[i x] xs IH]; intros h; cbn; auto. destruct (rs_loaded x); cbn; auto.
+    unfold f_heap. destruct (gtb (rs_value x) zero); cbn; auto.
+  Qed.
+  Lemma prop_trace_no_trigger xs : forall a, triggers_of (gtrace f_prop xs a) = [].
+  Proof.
+    induction xs as [|[i x] xs IH]; intros a; cbn; auto. destruct (rs_loaded x); cbn; auto.
+    unfold f_prop. destruct (gtb (rs_value x) zero); cbn; auto.
+  Qed.
+  Definition heap_of (key : T -> T) (l : list entry) : list (T * nat) := map (fun p => (key (snd p), fst p)) l.
+  Lemma heap_acc key xs : forall h,
+    gacc (f_heap key) xs h = h ++ heap_of key (filter positive (ld xs)).
+  Proof.
+    induction xs as [|[i x] xs IH]; intros h; cbn [gacc ld]; [now rewrite app_nil_r|].
+    destruct (rs_loaded x); [|apply IH]. cbn [filter].
+    change (positive (i, rs_value x)) with (gtb (rs_value x) zero).
+    unfold f_heap at 2. destruct (gtb (rs_value x) zero); cbn [fst]; rewrite IH; auto.
+    cbn. now rewrite <- app_assoc.
+  Qed.
+  Lemma prop_acc xs : forall acc sum,
+    gacc f_prop xs (acc, sum) =
+      (acc ++ map fst (filter positive (ld xs)), fold_left add (map snd (filter positive (ld xs))) sum).
+  Proof.
+    induction xs as [|[i x] xs IH]; intros acc sum; cbn [gacc ld]; [now rewrite app_nil_r|].
+    destruct (rs_loaded x); [|apply IH]. cbn [filter].
+    change (positive (i, rs_value x)) with (gtb (rs_value x) zero).
+    unfold f_prop at 2. destruct (gtb (rs_value x) zero); cbn [fst snd]; rewrite IH; auto.
+    cbn. now rewrite <- app_assoc.
+  Qed.
+End Traces.
+(* ------------------------------------------------------------------------------------------ *)
+(* 6. sorting: the extract-min order of the heap is the documented sorted arrangement          *)
+(* ------------------------------------------------------------------------------------------ *)
+
+(* generic facts about strict orders given as boolean relations *)
+Section Orders.
+  Context {E : Type}.
+  Variable lt : E -> E -> bool.
+  Variable Q : E -> Prop.           (* the elements on which lt is a total order *)
+  Variable idx : E -> nat.          (* distinct elements have distinct idx *)
+  Hypothesis asym : forall p q, lt p q = true -> lt q p = false.
+  Hypothesis trans : forall p q r, lt p q = true -> lt q r = true -> lt p r = true.
+  Hypothesis total : forall p q, Q p -> Q q -> idx p <> idx q -> lt p q = false -> lt q p = true.
+
+  Lemma sorted_unique (l1 : list E) : forall l2,
+    StronglySorted (fun p q => lt p q = true) l1 -> StronglySorted (fun p q => lt p q = true) l2 ->
+    Permutation l1 l2 -> l1 = l2.
+  Proof.
+    induction l1 as [|x l1 IH]; intros l2 S1 S2 P.
+    - apply Permutation_nil in P. now subst.
+    - destruct l2 as [|y l2]; [apply Permutation_sym, Permutation_nil in P; discriminate|].
+      inversion S1 as [|? ? S1' F1]; inversion S2 as [|? ? S2' F2]; subst.
+      assert (x = y).
+      { assert (Hx : In x (y :: l2)) by (eapply Permutation_in; [exact P | now left]).
+        assert (Hy : In y (x :: l1)) by (eapply Permutation_in; [apply Permutation_sym; exact P | now left]).
+        destruct Hx as [->|Hx]; auto. destruct Hy as [->|Hy]; auto.
+        rewrite Forall_forall in F1, F2. specialize (F1 _ Hy). specialize (F2 _ Hx).
+        rewrite (asym F1) in F2. discriminate. }
+      subst y. f_equal. apply IH; auto. eapply Permutation_cons_inv; eauto.
+  Qed.
+
+  (* insertion sort *)
+  Fixpoint ins (x : E) (l : list E) : list E :=
+    match l with [] => [x] | y :: l' => if lt y x then y :: ins x l' else x :: l end.
+  Fixpoint isort (l : list E) : list E := match l with [] => [] | x :: l' => ins x (isort l') end.
+  Lemma ins_perm x l : Permutation (x :: l) (ins x l).
+  Proof.
+    induction l as [|y l IH]; cbn; auto. destruct (lt y x); auto.
+    eapply perm_trans; [apply perm_swap|]. now constructor.
+  Qed.
+  Lemma isort_perm l : Permutation l (isort l).
+  Proof. induction l as [|x l IH]; cbn; auto. eapply perm_trans; [|apply ins_perm]. now constructor. Qed.
+  Lemma ins_sorted x l :
+    Q x -> Forall Q l -> ~ In (idx x) (map idx l) ->
+    StronglySorted (fun p q => lt p q = true) l -> StronglySorted (fun p q => lt p q = true) (ins x l).
+  Proof.
+    intros Qx QL NI S. induction S as [|y l S IH F]; cbn.
+    - repeat constructor.
+    - inversion QL as [|? ? Qy QL']; subst. cbn in NI.
+      destruct (lt y x) eqn:YX.
+      + constructor; [apply IH; auto|].
+        eapply Permutation_Forall; [apply ins_perm|]. constructor; auto.
+      + assert (XY : lt x y = true) by (apply total; auto).
+        constructor; [constructor; auto|]. constructor; auto.
+        eapply Forall_impl; [|exact F]. cbn. intros z. now apply trans.
+  Qed.
+  Lemma isort_sorted l : Forall Q l -> NoDup (map idx l) -> StronglySorted (fun p q => lt p q = true) (isort l).
+  Proof.
+    induction l as [|x l IH]; cbn; intros QL ND; [constructor|].
+    inversion QL; inversion ND; subst. apply ins_sorted; auto.
+    - eapply Permutation_Forall; [apply isort_perm|]; auto.
+    - intros H. eapply Permutation_in in H; [|apply Permutation_sym, Permutation_map, isort_perm]. contradiction.
+  Qed.
+End Orders.
+
+Section HeapOrder.
+  Context {T : Type} {N : Num T}.
+  Notation entry := (nat * T)%type.
+  Notation hentry := (T * nat)%type.
+
+  (* the selection sort the model performs *)
+  Fixpoint pop_all (fuel : nat) (heap : list hentry) : list hentry :=
+    match fuel with
+    | O => []
+    | Datatypes.S fuel' =>
+        match extract_min heap with None => [] | Some (m, rest) => m :: pop_all fuel' rest end
+    end.
+  Lemma pop_order_pop_all fuel : forall n a heap,
+    pop_order fuel n a heap = map snd (firstn (Z.to_nat (n - a)) (pop_all fuel heap)).
+  Proof.
+    induction fuel as [|fuel IH]; intros n a heap; cbn [pop_order pop_all].
+    - now rewrite firstn_nil.
+    - destruct (extract_min heap) as [[m rest]|]; [|now rewrite firstn_nil].
+      destruct (Z.ltb_spec a n).
+      + replace (Z.to_nat (n - a)) with (Datatypes.S (Z.to_nat (n - (a + 1)))) by lia.
+        cbn. now rewrite IH.
+      + replace (Z.to_nat (n - a)) with O by lia. reflexivity.
+  Qed.
+
+  Lemma extract_min_perm (h : list hentry) : forall m rest,
+    extract_min h = Some (m, rest) -> Permutation h (m :: rest).
+  Proof.
+    induction h as [|x h IH]; intros m rest; cbn; [discriminate|].
+    destruct (extract_min h) as [[m' rest']|] eqn:E.
+    - specialize (IH _ _ eq_refl). destruct (key_lt m' x); intros H; inversion H; subst; auto.
+      eapply perm_trans; [apply perm_skip; exact IH|]. apply perm_swap.
+    - intros H; inversion H; subst. destruct h; [auto|]. cbn in E.
+      destruct (extract_min h) as [[? ?]|]; [destruct (key_lt _ _)|]; discriminate.
+  Qed.
+  Lemma extract_min_none (h : list hentry) : extract_min h = None -> h = [].
+  Proof.
+    destruct h as [|x h]; auto. cbn. destruct (extract_min h) as [[? ?]|]; [destruct (key_lt _ _)|]; discriminate.
+  Qed.
+  Lemma pop_all_perm fuel : forall h, length h = fuel -> Permutation h (pop_all fuel h).
+  Proof.
+    induction fuel as [|fuel IH]; intros h L; cbn.
+    - destruct h; [auto|discriminate].
+    - destruct (extract_min h) as [[m rest]|] eqn:E.
+      + pose proof (extract_min_perm _ E) as P. eapply perm_trans; [exact P|]. constructor.
+        apply IH. apply Permutation_length in P. cbn in P. lia.
+      + apply extract_min_none in E. subst. discriminate.
+  Qed.
+
+  Section WithLaws.
+    Variable Q : hentry -> Prop.
+    Hypothesis asym : forall p q, key_lt p q = true -> key_lt q p = false.
+    Hypothesis trans : forall p q r, key_lt p q = true -> key_lt q r = true -> key_lt p r = true.
+    Hypothesis total : forall p q, Q p -> Q q -> snd p <> snd q -> key_lt p q = false -> key_lt q p = true.
+
+    Lemma extract_min_least (h : list hentry) : forall m rest,
+      Forall Q h -> NoDup (map snd h) -> extract_min h = Some (m, rest) ->
+      Forall (fun z => key_lt m z = true) rest.
+    Proof.
+      induction h as [|x h IH]; intros m rest QH ND; cbn; [discriminate|].
+      inversion QH as [|? ? Qx QH']; inversion ND as [|? ? NI ND']; subst.
+      destruct (extract_min h) as [[m' rest']|] eqn:E.
+      - specialize (IH _ _ QH' ND' eq_refl). pose proof (extract_min_perm _ E) as P.
+        destruct (key_lt m' x) eqn:MX; intros H; inversion H; subst.
+        + constructor; auto.
+        + assert (Qm : Q m') by (rewrite Forall_forall in QH'; apply QH'; eapply Permutation_in; [apply Permutation_sym; exact P|now left]).
+          assert (NE : snd m' <> snd m).
+          { intros EQ. apply NI. rewrite <- EQ. apply in_map. eapply Permutation_in; [apply Permutation_sym; exact P|now left]. }
+          assert (XM : key_lt m m' = true) by (apply total; auto).
+          eapply Permutation_Forall; [apply Permutation_sym; exact P|]. constructor; auto.
+          eapply Forall_impl; [|exact IH]. cbn. intros z. now apply trans.
+      - intros H; inversion H; subst. constructor.
+    Qed.
+    Lemma pop_all_sorted fuel : forall h, length h = fuel -> Forall Q h -> NoDup (map snd h) ->
+      StronglySorted (fun p q => key_lt p q = true) (pop_all fuel h).
+    Proof.
+      induction fuel as [|fuel IH]; intros h L QH ND; cbn; [constructor|].
+      destruct (extract_min h) as [[m rest]|] eqn:E; [|constructor].
+      pose proof (extract_min_perm _ E) as P.
+      assert (QR : Forall Q (m :: rest)) by (eapply Permutation_Forall; eauto).
+      assert (NR : NoDup (map snd (m :: rest))) by (eapply Permutation_NoDup; [apply Permutation_map; exact P|auto]).
+      inversion QR; inversion NR; subst.
+      assert (LR : length rest = fuel) by (apply Permutation_length in P; cbn in P; lia).
+      constructor; [apply IH; auto|].
+      eapply Permutation_Forall; [apply pop_all_perm; exact LR|].
+      eapply extract_min_least; [exact QH | exact ND | exact E].
+    Qed.
+  End WithLaws.
+End HeapOrder.
+
+(* ---- the order laws under which `ltb`/`eqb` sort: they hold for the reals, and for IEEE doubles on
+   non-NaN values (`eqb a a = true`); positive degrees are never NaN *)
+Record PosOrder {T : Type} (N : Num T) : Prop := {
+  po_pos_ord : forall a, ltb zero a = true -> eqb a a = true;
+  po_eq_sym : forall a b, eqb a b = eqb b a;
+  po_eq_trans : forall a b c, eqb a b = true -> eqb b c = true -> eqb a c = true;
+  po_lt_eq_l : forall a b c, eqb a b = true -> ltb a c = ltb b c;
+  po_lt_eq_r : forall a b c, eqb a b = true -> ltb c a = ltb c b;
+  po_lt_asym : forall a b, ltb a b = true -> ltb b a = false;
+  po_lt_trans : forall a b c, ltb a b = true -> ltb b c = true -> ltb a c = true;
+  po_total : forall a b, eqb a a = true -> eqb b b = true -> eqb a b = false -> ltb a b = false -> ltb b a = true;
+  po_eq_not_lt : forall a b, eqb a b = true -> ltb a b = false;
+  po_neg_lt : forall a b, ltb (neg a) (neg b) = ltb b a;
+  po_neg_eq : forall a b, eqb (neg a) (neg b) = eqb a b
+}.
+
+Section KeyLaws.
+  Context {T : Type} {N : Num T}.
+  Hypothesis PO : PosOrder N.
+  Notation entry := (nat * T)%type.
+  Notation hentry := (T * nat)%type.
+  Definition ordinary (p : hentry) : Prop := eqb (fst p) (fst p) = true.
+
+  Lemma key_lt_asym (p q : hentry) : key_lt p q = true -> key_lt q p = false.
+  Proof.
+    destruct p as [a i], q as [b j]; unfold key_lt; cbn [fst snd]. rewrite (po_eq_sym PO b a).
+    destruct (eqb a b).
+    - intros H. apply Nat.ltb_lt in H. apply Nat.ltb_ge. lia.
+    - apply (po_lt_asym PO).
+  Qed.
+  Lemma key_lt_trans (p q r : hentry) : key_lt p q = true -> key_lt q r = true -> key_lt p r = true.
+  Proof.
+    destruct p as [a i], q as [b j], r as [c k]; unfold key_lt; cbn [fst snd].
+    destruct (eqb a b) eqn:AB, (eqb b c) eqn:BC.
+    - rewrite (po_eq_trans PO _ _ _ AB BC). intros H1 H2. apply Nat.ltb_lt in H1, H2. apply Nat.ltb_lt. lia.
+    - intros _ H. destruct (eqb a c) eqn:AC.
+      + rewrite (po_eq_sym PO) in AB. rewrite (po_eq_trans PO _ _ _ AB AC) in BC. discriminate.
+      + now rewrite (po_lt_eq_l PO _ _ c AB).
+    - intros H _. destruct (eqb a c) eqn:AC.
+      + rewrite (po_eq_sym PO) in BC. rewrite (po_eq_trans PO _ _ _ AC BC) in AB. discriminate.
+      + now rewrite <- (po_lt_eq_r PO _ _ a BC).
+    - intros H1 H2. destruct (eqb a c) eqn:AC.
+      + rewrite (po_lt_eq_l PO _ _ b AC) in H1. rewrite (po_lt_asym PO _ _ H1) in H2. discriminate.
+      + eapply (po_lt_trans PO); eauto.
+  Qed.
+  Lemma key_lt_total (p q : hentry) :
+    ordinary p -> ordinary q -> snd p <> snd q -> key_lt p q = false -> key_lt q p = true.
+  Proof.
+    destruct p as [a i], q as [b j]; unfold key_lt, ordinary; cbn [fst snd]. intros Oa Ob NE.
+    rewrite (po_eq_sym PO b a). destruct (eqb a b) eqn:AB.
+    - intros H. apply Nat.ltb_ge in H. apply Nat.ltb_lt. lia.
+    - now apply (po_total PO).
+  Qed.
+
+  (* the documented orders are the tuple comparison of the heap keys *)
+  Definition hk (key : T -> T) (p : entry) : hentry := (key (snd p), fst p).
+  Lemma before_desc_key (p q : entry) : before_desc p q = key_lt (hk neg p) (hk neg q).
+  Proof.
+    destruct p as [i a], q as [j b]; unfold before_desc, key_lt, hk; cbn [fst snd].
+    rewrite (po_neg_eq PO), (po_neg_lt PO). destruct (eqb a b) eqn:AB.
+    - rewrite (po_eq_sym PO) in AB. now rewrite (po_eq_not_lt PO _ _ AB).
+    - now rewrite andb_false_l, orb_false_r.
+  Qed.
+  Lemma before_asc_key (p q : entry) : before_asc p q = key_lt (hk (fun d => d) p) (hk (fun d => d) q).
+  Proof.
+    destruct p as [i a], q as [j b]; unfold before_asc, key_lt, hk; cbn [fst snd].
+    destruct (eqb a b) eqn:AB.
+    - now rewrite (po_eq_not_lt PO _ _ AB).
+    - now rewrite andb_false_l, orb_false_r.
+  Qed.
+
+  Lemma sort_by_isort before (l : list entry) : sort_by before l = isort before l.
+  Proof.
+    induction l as [|x l IH]; cbn; auto. rewrite IH. generalize (isort before l). intros m.
+    induction m as [|y m IHm]; cbn; auto. now rewrite IHm.
+  Qed.
+
+  Section OneKey.
+    Variable key : T -> T.
+    Variable before : entry -> entry -> bool.
+    Hypothesis before_key : forall p q, before p q = key_lt (hk key p) (hk key q).
+    Hypothesis key_ord : forall a, ltb zero a = true -> eqb (key a) (key a) = true.
+
+    Let Qe (p : entry) : Prop := positive p = true.
+
+    Lemma sort_by_sorted (l : list entry) : Forall Qe l -> NoDup (map fst l) ->
+      StronglySorted (fun p q => before p q = true) (sort_by before l).
+    Proof.
+      intros QL ND. rewrite sort_by_isort.
+      apply (@isort_sorted entry before Qe fst); auto.
+      - intros p q r. rewrite !before_key. apply key_lt_trans.
+      - intros p q Hp Hq NE. rewrite !before_key. apply key_lt_total; auto; unfold ordinary, hk; cbn; now apply key_ord.
+    Qed.
+    Lemma sort_by_perm (l : list entry) : Permutation l (sort_by before l).
+    Proof. rewrite sort_by_isort. apply isort_perm. Qed.
+
+    (* popping the heap built from l yields the keys of l in documented order *)
+    Lemma pop_all_sort_by (l : list entry) : Forall Qe l -> NoDup (map fst l) ->
+      pop_all (length l) (heap_of key l) = heap_of key (sort_by before l).
+    Proof.
+      intros QL ND.
+      assert (HL : length (heap_of key l) = length l) by apply map_length.
+      assert (HS : map snd (heap_of key l) = map fst l).
+      { unfold heap_of. rewrite map_map. reflexivity. }
+      apply (@sorted_unique hentry key_lt key_lt_asym).
+      - apply pop_all_sorted with (Q := ordinary); [exact key_lt_trans | exact key_lt_total | exact HL | | ].
+        + apply Forall_forall. intros z Hz. apply in_map_iff in Hz as (p & <- & Hp).
+          rewrite Forall_forall in QL. unfold ordinary. cbn. apply key_ord. apply QL, Hp.
+        + now rewrite HS.
+      - assert (SS := sort_by_sorted QL ND). clear - SS before_key.
+        induction SS as [|p m SS IH F]; cbn; constructor; auto.
+        apply Forall_forall. intros z Hz. apply in_map_iff in Hz as (q & <- & Hq).
+        rewrite Forall_forall in F. specialize (F _ Hq). now rewrite before_key in F.
+      - eapply perm_trans; [apply Permutation_sym, pop_all_perm; exact HL|].
+        apply Permutation_map, sort_by_perm.
+    Qed.
+  End OneKey.
+
+  Lemma neg_ord a : ltb zero a = true -> eqb (neg a) (neg a) = true.
+  Proof. intros H. rewrite (po_neg_eq PO). now apply (po_pos_ord PO). Qed.
+
+  Theorem sort_by_is_sorted_arrangement_desc (l : list entry) :
+    Forall (fun p => positive p = true) l -> NoDup (map fst l) ->
+    sorted_arrangement before_desc l (sort_by before_desc l).
+  Proof.
+    intros QL ND. split; [apply sort_by_perm|].
+    eapply sort_by_sorted; eauto using before_desc_key, neg_ord.
+  Qed.
+  Theorem sort_by_is_sorted_arrangement_asc (l : list entry) :
+    Forall (fun p => positive p = true) l -> NoDup (map fst l) ->
+    sorted_arrangement before_asc l (sort_by before_asc l).
+  Proof.
+    intros QL ND. split; [apply sort_by_perm|].
+    eapply sort_by_sorted; eauto using before_asc_key, (po_pos_ord PO).
+  Qed.
+  (* there is only one sorted arrangement *)
+  Theorem sorted_arrangement_unique_desc (l l1 l2 : list entry) :
+    sorted_arrangement before_desc l l1 -> sorted_arrangement before_desc l l2 -> l1 = l2.
+  Proof.
+    intros [P1 S1] [P2 S2]. apply (@sorted_unique entry before_desc); auto.
+    - intros p q. rewrite !before_desc_key. apply key_lt_asym.
+    - eapply perm_trans; [apply Permutation_sym; exact P1 | exact P2].
+  Qed.
+  Theorem sorted_arrangement_unique_asc (l l1 l2 : list entry) :
+    sorted_arrangement before_asc l l1 -> sorted_arrangement before_asc l l2 -> l1 = l2.
+  Proof.
+    intros [P1 S1] [P2 S2]. apply (@sorted_unique entry before_asc); auto.
+    - intros p q. rewrite !before_asc_key. apply key_lt_asym.
+    - eapply perm_trans; [apply Permutation_sym; exact P1 | exact P2].
+  Qed.
+End KeyLaws.
